@@ -2,7 +2,10 @@
 """Generate /verif/MANIFEST.json from /verif/checks.json (the single source of truth the driver also reads)."""
 import json, os
 ROOT = os.path.dirname(os.path.dirname(os.path.abspath(__file__)))
-checks = json.load(open(os.path.join(ROOT, "checks.json")))
+checks = {}
+for name in sorted(os.listdir(os.path.join(ROOT, "checks.d"))):
+    if name.endswith(".json"):
+        checks.update(json.load(open(os.path.join(ROOT, "checks.d", name))))
 props = [json.loads(l) for l in open(os.path.join(ROOT, "properties.jsonl")) if l.strip()]
 meta = json.load(open(os.path.join(ROOT, "manifest_meta.json")))
 out = {
